@@ -12,7 +12,7 @@ from formulae.token import Token
 from vf.pyvc.registry import Registry, Loop
 from vf.pyvc.values import SData, SStr, SInt, SReal, SBool, TData, Unsupported, intern
 
-REG = Registry()
+from .base import REG
 
 
 # ---------------------------------------------------------------------------------------------
